@@ -72,9 +72,17 @@ def generate(chk):
     modification-type table, NOTE_KEYS, constants, and `_clamp_transpose` transliterated."""
     from note_seq import chord_symbols_lib as csl, constants, sequences_lib as sl, melodies_lib as ml, chords_lib as cl
     try:
-        tr = _Tr(sl._clamp_transpose, 'clampTranspose', sl, {})
-        clamp_txt, _ = tr.translate()
-        chk.translit['_clamp_transpose'] = 'regenerated from source'
+        # symbolic execution (gen/translit2.py): the same term whether the function re-assigns its parameter in an
+        # if/else and returns it, or returns from both branches (harmless rewrite C10-1 broke the statement-by-statement
+        # transliteration used before: `let`-shaped definition -> the proofs about it no longer applied)
+        from gen import translit2
+        try:
+            clamp_txt = translit2.translate(sl._clamp_transpose, sl, 'clampTranspose',
+                                            {k: 'int' for k in ('transpose_amount', 'ns_min_pitch', 'ns_max_pitch',
+                                                                'min_allowed_pitch', 'max_allowed_pitch')}, rounding=False)[0][1]
+        except translit2.Untranslatable as e2:
+            raise Untranslatable(str(e2))
+        chk.translit['_clamp_transpose'] = 'regenerated from source (symbolic execution)'
         fn_names = {csl._add_scale_degree: 'add', csl._subtract_scale_degree: 'sub', csl._alter_scale_degree: 'alt'}
         above = [csl._STEPS_ABOVE[s] for s in STEPS]
         midi = [csl._STEPS_MIDI[s] for s in STEPS]
